@@ -240,6 +240,87 @@ def same_set(a, b, scale):
     return True
 
 
+def images_near_minimum(basis, d, red, cutoff=1e-2):
+    """Brute-force reference for the tolerance clause: every lattice image of the separation `d` (fractional wrt
+    `basis`) whose LENGTH exceeds the minimum length by less than `cutoff`, as (vector in `basis` coordinates, excess)."""
+    M = np.rint(red @ np.linalg.inv(basis))
+    Minv = np.linalg.inv(M)
+    bs = np.sqrt((np.linalg.inv(red) ** 2).sum(axis=0))
+    x = d @ Minv
+    x0 = x - np.rint(x)
+    rho = np.linalg.norm(x0 @ red) + cutoff + 1e-9
+    R = [int(np.ceil(rho * bs[i])) + 1 for i in range(3)]
+    n = np.array(np.meshgrid(*[np.arange(-R[i], R[i] + 1) for i in range(3)], indexing="ij")).reshape(3, -1).T
+    v = x0[None, :] + n
+    L = np.sqrt(((v @ red) ** 2).sum(axis=1))
+    m = L.min()
+    sel = L - m < cutoff
+    return v[sel] @ M, L[sel] - m, float(m)
+
+
+def exact_reduced(G, pos, sfr, tmi):
+    """exact reduced Gram matrix and exact reduced positions matching the implementation's rint choices (or None)"""
+    tmi = np.array(tmi, dtype=int)
+    tm = np.rint(np.linalg.inv(tmi)).astype(int)
+    Gred = fmul(fmul(tmi.tolist(), G), ftr(tmi.tolist()))
+    out = []
+    for p, fl in zip(pos, sfr):
+        e = [sum(Fr(p[m]) * int(tm[m][l]) for m in range(3)) for l in range(3)]
+        sh = [round(float(e[l]) - fl[l]) for l in range(3)]
+        e = [e[l] - sh[l] for l in range(3)]
+        if max(abs(float(e[l]) - fl[l]) for l in range(3)) > 1e-9:
+            return None
+        out.append(e)
+    return Gred, out
+
+
+def tie_lattice(rng):
+    """lattices for the near-tolerance stream: cubic / tetragonal / orthorhombic / hexagonal, short (3-5) and long (20-50) axes,
+    optionally needle multiples and unimodular shears; returns dict like make_lattice plus tie separations"""
+    z = Fr(0)
+    kind = rng.choice(["cP", "cP", "tP", "oP", "cI", "cF", "hP"])
+    a = Fr(rng.choice([3, 4, 5, 20, 35, 50]))
+    b = a * Fr(rng.choice([5, 7]), 4)
+    c = a * Fr(rng.choice([3, 7]), 5)
+    if kind == "hP":
+        B = None
+        G = [[a * a, -a * a * H, z], [-a * a * H, a * a, z], [z, z, c * c]]
+        ties = [[H, z, z], [z, z, H], [Fr(1, 3), Fr(2, 3), z], [Fr(1, 3), Fr(2, 3), H], [H, z, H]]
+    else:
+        if kind == "cP":
+            B = [[a, z, z], [z, a, z], [z, z, a]]
+        elif kind == "tP":
+            B = [[a, z, z], [z, a, z], [z, z, c]]
+        elif kind == "oP":
+            B = [[a, z, z], [z, b, z], [z, z, c]]
+        elif kind == "cI":
+            B = [[-a * H, a * H, a * H], [a * H, -a * H, a * H], [a * H, a * H, -a * H]]
+        else:
+            B = [[z, a * H, a * H], [a * H, z, a * H], [a * H, a * H, z]]
+        G = fmul(B, ftr(B))
+        ties = [[H, z, z], [H, H, z], [H, H, H], [z, H, H], [z, z, H]]
+    tags = [kind, "a=%d" % a]
+    U = None
+    if rng.random() < 0.3:
+        n = rng.choice([2, 5, 13, 50] if a <= 5 else [2, 3])
+        ax = rng.randrange(3)
+        D = [[(n if (i == j and i == ax) else (1 if i == j else 0)) for j in range(3)] for i in range(3)]
+        G = fmul(fmul(D, G), ftr(D))
+        B = fmul(D, B) if B is not None else None
+        tags.append("needle%d" % n)
+    if rng.random() < 0.4:
+        U = random_unimodular(rng, rng.choice([1, 2, 3]))
+        G = fmul(fmul(U, G), ftr(U))
+        B = fmul(U, B) if B is not None else None
+        # separations are half lattice vectors / special points: transform fractional coordinates x -> x U^-1
+        Ui = finv3([[Fr(x) for x in r] for r in U])
+        ties = [[sum(t[k] * Ui[k][l] for k in range(3)) for l in range(3)] for t in ties]
+        tags.append("sheared")
+    Gf = ffloat(G)
+    basis = ffloat(B) if B is not None else np.linalg.cholesky(Gf)
+    return dict(name="+".join(tags), G=G, basis=np.array(basis, dtype="double", order="C"), ties=ties)
+
+
 def main(run):
     rng = run.rng
     common.setup_phonopy("omp")
@@ -265,7 +346,10 @@ def main(run):
         "spglib niggli_reduce is an input: its result is checked to be a unimodular transform of the supercell basis",
     ]
     run.assumptions += ["window completeness for all reduced lattices (FullStatement_window) is not proved; it is tested case by case against specShortest",
-                        "float rounding of positions and lengths is outside the model"]
+                        "float rounding of positions and lengths is outside the model",
+                        "tolerance clause: the model's pairShortestTol decides |r| - min|r| < symprec exactly (tolerance_rule_is_in_length) on the "
+                        "search window; completeness over all images under the tolerance is carried by the brute-force oracle of the near-tolerance "
+                        "stream, with a factor-10 margin on both sides of symprec"]
     run.cov["partial"] = ["FullStatement_window: completeness of the 65-point search window for every Niggli-reduced lattice is unproved "
                           "(impl_subset_spec_iff reduces the property to it); covered by the exhaustive-image oracle on every generated case"]
 
@@ -387,6 +471,83 @@ def main(run):
             lines.append("spec %s %s" % (qs(flat(Gred)), qs(d)))
             m, adr = int(dmu[i, j, 0]), int(dmu[i, j, 1])
             meta.append(("spec", dict(case, pair=[i, j]), (dsv[adr:adr + m], d, T, scale)))
+
+    # ------------------------------------------------------------ near-tolerance stream (the clause "within the symmetry tolerance")
+    # Tie configurations (2-, 3-, 4-, 8-fold) displaced so that the tied lengths split by at most symprec/10 (all images MUST be
+    # stored) or by at least 10*symprec (the longer ones MUST NOT). Reference: brute-force enumeration with the criterion
+    # |r| - min|r| < symprec in LENGTH. Images in the grey zone (symprec/10, 10*symprec) make the case undecided (skipped), so a
+    # harmless change of the constant cannot alarm.
+    INSIDE, OUTSIDE = SYMPREC / 10, SYMPREC * 10
+    ntol = 1200 if thorough else 160
+    done_tol = 0
+    tries = 0
+    while done_tol < ntol and tries < 6 * ntol:
+        tries += 1
+        lat = tie_lattice(rng)
+        G, basis = lat["G"], lat["basis"]
+        if np.abs(basis @ basis.T - ffloat(G)).max() > 1e-9 * np.abs(ffloat(G)).max():
+            continue
+        p0 = [Fr(rng.randint(0, 15), 16) for _ in range(3)] if rng.random() < 0.5 else [Fr(0)] * 3
+        tie = rng.choice(lat["ties"])
+        delta = rng.choice([1e-9, 1e-8, 1e-7, 1e-6, 1e-4, 1e-3])
+        inside = delta <= 1e-6
+        u = np.array([rng.gauss(0, 1) for _ in range(3)])
+        u /= np.linalg.norm(u)
+        # Cartesian displacement: half of delta for the must-store class (tied lengths then split by at most delta),
+        # 2*delta for the must-not class (a generic direction splits them by a sizeable fraction of it)
+        disp = (delta / 2 if inside else 2 * delta) * u @ np.linalg.inv(basis)
+        eps = [Fr(float(x)) for x in disp]
+        pos = [p0, [p0[k] + tie[k] + eps[k] for k in range(3)]]
+        pos_to = np.array([[float(x) for x in p] for p in pos], dtype="double", order="C")
+        pos_from = np.array(pos_to[:1], dtype="double", order="C")
+        try:
+            sp = quiet(ShortestPairs, basis, pos_to, pos_from, store_dense_svecs=True, symprec=SYMPREC)
+        except AssertionError:
+            continue
+        dsv, dmu = sp.shortest_vectors, sp.multiplicities
+        ssv, smu = quiet(get_smallest_vectors, basis, pos_to, pos_from, store_dense_svecs=False, symprec=SYMPREC)
+        lp, sfr, pfr, tmi, red = quiet(sp._transform_cell_basis, "int64")
+        vecs, excess, mlen = images_near_minimum(basis, pos_to[1] - pos_to[0], np.array(red))
+        if ((excess > INSIDE) & (excess < OUTSIDE)).any():
+            run.count("near-tolerance: undecided (an image in the grey zone symprec/10 .. 10*symprec), skipped")
+            continue
+        must = vecs[excess <= INSIDE]
+        near_in = int(((excess > 1e-12) & (excess <= INSIDE)).sum())
+        near_out = int(((excess >= OUTSIDE)).sum())
+        if inside and (near_in == 0 or len(must) < 2):
+            continue
+        if not inside and (near_out == 0 or len(vecs) < 2):
+            continue
+        done_tol += 1
+        case = dict(lattice=lat["name"], basis=basis.tolist(), gram=[[str(x) for x in r] for r in G], positions=[[str(x) for x in p] for p in pos],
+                    displacement=delta, expected_multiplicity=len(must), min_length=mlen, excess_lengths=[float(x) for x in excess])
+        run.case(("near-tol", tuple(map(tuple, G)), tuple(map(tuple, pos))), nontrivial=True)
+        run.count("near-tolerance %s delta=%g" % ("inside (must store)" if inside else "outside (must not store)", delta))
+        run.count("near-tolerance expected multiplicity %d" % len(must))
+        run.count("near-tolerance min length %s" % ("< 10" if mlen < 10 else ">= 10"))
+        run.count("oracle-near-tolerance", section="oracle")
+        scale = max(1.0, float(np.abs(vecs).max()) + 3)
+        m, adr = int(dmu[1, 0, 0]), int(dmu[1, 0, 1])
+        for site, got in (("get_smallest_vectors(store_dense_svecs=True)", dsv[adr:adr + m]),
+                          ("get_smallest_vectors(store_dense_svecs=False)", ssv[1, 0, :int(smu[1, 0])])):
+            if not same_set(got, must, scale):
+                kl = "near-tie-missing" if len(got) < len(must) else "non-tie-stored"
+                run.violation(site, kl, "separation displaced by %g from a tie configuration (%d images within 1e-2 of the minimum): stored %d vectors, "
+                              "%d images are within symprec/10 of the minimum length %.6g (next excess %.3g)" % (delta, len(vecs), len(got), len(must), mlen,
+                                                                               float(excess[excess > INSIDE].min()) if (excess > INSIDE).any() else float("nan")), case)
+        # correspondence: the model's tolerance rule (exact, in length) on the implementation's reduced basis
+        er = exact_reduced(G, pos, sfr, tmi)
+        if er is None or abs(int(round(np.linalg.det(np.array(tmi))))) != 1:
+            run.count("near-tolerance: exact reduction not recoverable (model skipped)")
+            continue
+        Gred, exact_to = er
+        lines.append("svecstol %s %s %s %d %s %d %d %s %s" % (q(Fr(1, 100000)), qs(flat(Gred)), ints(np.array(tmi).T), len(lp), ints(lp), 2, 1,
+                                                              qs(flat(exact_to)), qs(flat(exact_to[:1]))))
+        meta.append(("svecstol", case, (dsv, dmu, scale)))
+    run.cov["near_tolerance"] = ("tie configurations displaced by 1e-9..1e-6 (tied lengths within symprec/10: all must be stored) and 1e-4..1e-3 "
+                                 "(excess >= 10*symprec: must not be stored); reference = brute-force enumeration with |r| - min|r| < symprec; "
+                                 "cases with an image between symprec/10 and 10*symprec are skipped, so the check is insensitive to a change of "
+                                 "the constant by less than a factor 10 but not to a change of the criterion (e.g. squared lengths)")
 
     # ------------------------------------------------------------ Primitive.get_smallest_vectors
     names = ["sc", "cscl", "nacl_prim", "bcc", "fcc", "hcp", "zincblende_prim", "bct", "ortho_C", "mono_P", "triclinic", "rhombo", "nacl", "diamond", "wurtzite"]
@@ -516,6 +677,16 @@ def main(run):
                         okk = False
             if not okk:
                 run.broke("correspondence", "sparse kernel differs from the model", case)
+        elif kind == "svecstol":
+            dsv, dmu, scale = impl
+            tk = o.split()
+            npair = dmu.shape[0] * dmu.shape[1]
+            counts = [int(x) for x in tk[:npair]]
+            vec = np.array([float(Fr(x)) for x in tk[npair:]]).reshape(-1, 3)
+            if counts != [int(x) for x in dmu[:, :, 0].ravel()]:
+                run.broke("correspondence", "near-tolerance: multiplicities %s differ from the model's tolerance rule %s" % (dmu[:, :, 0].ravel().tolist(), counts), case)
+            elif np.abs(vec - dsv).max() > TOL * scale:
+                run.broke("correspondence", "near-tolerance: stored vectors differ from the model by %.3g" % np.abs(vec - dsv).max(), case)
         elif kind == "spec":
             got, d, T, scale = impl
             tk = o.split()
